@@ -388,7 +388,7 @@ func c08NumberWork(w *h.W) {
 					ps = append(ps, fmt.Sprintf("%s-%d", e, i))
 				}
 				lst := "[" + strings.Join(el, ", ") + "]"
-				pc.Steps = append(pc.Steps, h.Query(rd("sort("+lst+", S)"), 2), h.Query(rd("msort("+lst+", S)"), 2),
+				pc.Steps = append(pc.Steps, h.Query(rd("sort("+lst+", S)"), 2),
 					h.Query(rd("setof(E, member(E, "+lst+"), S)"), 2), h.Query(rd("keysort(["+strings.Join(ps, ", ")+"], S)"), 2))
 			}
 			runProgCase(w, "sort-numbers", pc, l)
@@ -484,7 +484,7 @@ func c08Replay(b []byte) (string, string, bool) {
 func init() {
 	h.Register(&h.Check{
 		ID: "C08",
-		Rule: "(a) all ordered pairs over a universe of 66 terms (variables, floats, integers incl. numerically equal 1/1.0, atoms whose interning order differs from their text order, compounds varying arity/name/arguments, lists in several notations, strings): compare/3 and the six comparison predicates, each side written separately; (b) order laws (one of < = >, '=' only for identical terms, antisymmetry, transitivity) on the complete comparison matrix computed inside ONE call for term sets with shared variables and for sliding windows of the ground universe; (c) sort/2 and setof/3 on all lists of length <= L over a 8-10 term sub-universe, keysort/2 on all lists of length <= K over 4 keys with the position as payload, and on all 2^13 lists of length 13, 14 (16, 20) over two or three keys (stability needs > 12 elements); (d) every pair of abstract lists through every pair of the 13 construction recipes: compare/3 and sort/2; (e) numbers: the complete comparison matrix with the order laws over the integer boundary grid (around 0, +-2^31, +-2^32, +-2^53, +-2^62, min/max) and the float grid of C07, bare and nested in 5 compound/list shapes; the six comparison predicates on all pairs of the bare grid; sort/2, msort/2, setof/3 and keysort/2 on all lists of length <= 3 (4) over 12 extreme values; (f) atoms by text: the comparison matrix with the order laws over all 73 strings of <= 2 characters over 8 characters of 1..4 bytes (one-character atoms are held differently from longer ones), as atoms, as functor names and as arguments; sorts of all short lists over 10 such atoms. Non-trivial = decided.",
+		Rule: "(a) all ordered pairs over a universe of 66 terms (variables, floats, integers incl. numerically equal 1/1.0, atoms whose interning order differs from their text order, compounds varying arity/name/arguments, lists in several notations, strings): compare/3 and the six comparison predicates, each side written separately; (b) order laws (one of < = >, '=' only for identical terms, antisymmetry, transitivity) on the complete comparison matrix computed inside ONE call for term sets with shared variables and for sliding windows of the ground universe; (c) sort/2 and setof/3 on all lists of length <= L over a 8-10 term sub-universe, keysort/2 on all lists of length <= K over 4 keys with the position as payload, and on all 2^13 lists of length 13, 14 (16, 20) over two or three keys (stability needs > 12 elements); (d) every pair of abstract lists through every pair of the 13 construction recipes: compare/3 and sort/2; (e) numbers: the complete comparison matrix with the order laws over the integer boundary grid (around 0, +-2^31, +-2^32, +-2^53, +-2^62, min/max) and the float grid of C07, bare and nested in 5 compound/list shapes; the six comparison predicates on all pairs of the bare grid; sort/2, setof/3 and keysort/2 on all lists of length <= 3 (4) over 12 extreme values; (f) atoms by text: the comparison matrix with the order laws over all 73 strings of <= 2 characters over 8 characters of 1..4 bytes (one-character atoms are held differently from longer ones), as atoms, as functor names and as arguments; sorts of all short lists over 10 such atoms. Non-trivial = decided.",
 		Explanation: "state = a pair/list of terms; transition = one comparison or sort executed on the real interpreter and compared with the reference standard order (Var < Float < Integer < Atom < Compound; arity, name, arguments) - pairs whose order hinges on two distinct unbound variables are only subject to the in-call law checks",
 		Assumptions: []string{"reference: ref/order exactly as the property states the order", "-0.0 versus 0.0 is not in the universe (the two are '=' here although they are written differently)"},
 		Work:        c08Work,
